@@ -229,6 +229,39 @@ def stepLive (D : Kind → CopyDesc) (w : World) (line : String) : World × Stri
         | none => (w, s!"drop {t} file={if w.envAlive then rcOf h w.file else 0} cmp={if w.envAlive then rcOf h w.cmp else 0}")
       | none => (w, "no-object")
     | none => (w, "bad-op")
+  | ["recopy"] =>
+    -- the copy is replaced by a copy of itself, the first copy is released
+    match w.obj 1 with
+    | some c =>
+      let (h, c2) := sqfsCopyTop D w.h c
+      match h.crash, c2 with
+      | some cr, _ => ({ w with h := h }, s!"crash {cr.name}")
+      | none, none => ({ w with h := h }, "recopy NULL")
+      | none, some c2 =>
+        let h := sqfsDropF h c
+        let w := { w with h := h, objs := w.objs.set 1 (some c2) }
+        match h.crash with
+        | some cr => (w, s!"crash {cr.name}")
+        | none => (w, s!"recopy ok file={if w.envAlive then rcOf h w.file else 0} cmp={if w.envAlive then rcOf h w.cmp else 0}")
+    | none => (w, "no-object")
+  | ["copydrop", t] =>
+    -- one more copy while the others are alive, released at once (`copy_then_release_restores`)
+    match targetIx t with
+    | none => (w, "bad-op")
+    | some i =>
+      match w.obj i with
+      | none => (w, "no-object")
+      | some x =>
+        let (h, c2) := sqfsCopyTop D w.h x
+        match h.crash, c2 with
+        | some cr, _ => ({ w with h := h }, s!"crash {cr.name}")
+        | none, none => ({ w with h := h }, "copydrop NULL")
+        | none, some c2 =>
+          let h := sqfsDropF h c2
+          let w := { w with h := h }
+          match h.crash with
+          | some cr => (w, s!"crash {cr.name}")
+          | none => (w, s!"copydrop ok file={if w.envAlive then rcOf h w.file else 0} cmp={if w.envAlive then rcOf h w.cmp else 0}")
   | ["grab", t] =>
     match (targetIx t).bind w.obj with
     | some id => let h := grab w.h id; ({ w with h := h }, s!"grab {t} {rcOf h id}")
